@@ -1,4 +1,3 @@
-use core::slice;
 use std::fmt::Display;
 use std::fmt::Formatter;
 use std::io::Cursor;
@@ -217,11 +216,8 @@ impl<const N: usize> AEADCipherCodec<N> {
                 }
                 CipherKind::Aead2022Blake3ChaCha8Poly1305 | CipherKind::Aead2022Blake3ChaCha20Poly1305 => {
                     let (nonce, text) = src.split_at_mut(udp::nonce_length(kind));
-                    let session_id = {
-                        let slice = &text[..8];
-                        let slice: &[u64] = unsafe { slice::from_raw_parts(slice.as_ptr() as *const _, 1) };
-                        u64::from_be(slice[0])
-                    };
+                    // read byte-wise: the receive buffer gives no alignment guarantee
+                    let session_id = u64::from_be_bytes(text[..8].try_into().expect("8 bytes"));
                     let cipher = get_cipher(kind, context.key, session_id);
                     cipher.decrypt_in_place_detached(nonce, &[], text).map_err(|e| anyhow!(e))?;
                     let mut cursor = Cursor::new(text);
@@ -306,11 +302,8 @@ impl<const N: usize> AEADCipherCodec<N> {
             }
             CipherKind::Aead2022Blake3ChaCha8Poly1305 | CipherKind::Aead2022Blake3ChaCha20Poly1305 => {
                 let (nonce, text) = src.split_at_mut(nonce_length);
-                let session_id = {
-                    let slice = &text[..8];
-                    let slice: &[u64] = unsafe { slice::from_raw_parts(slice.as_ptr() as *const _, 1) };
-                    u64::from_be(slice[0])
-                };
+                // read byte-wise: the receive buffer gives no alignment guarantee
+                let session_id = u64::from_be_bytes(text[..8].try_into().expect("8 bytes"));
                 let cipher = get_cipher(self.kind, context.key, session_id);
                 cipher.decrypt_in_place_detached(nonce, &[], text).map_err(|e| anyhow!(e))?;
                 let mut cursor = Cursor::new(text);
